@@ -142,15 +142,21 @@ def gen_regular(rng, sc=None):
         'circle' if circle else 'ellipse'
 
 
-def detect_repaired():
-    """which variant of bezier_unit_tangent's fallback the tree under test contains: the repaired
-    one returns the direction of travel (-1+1j)/sqrt(2) on the witness of the sign defect"""
+def detect_variant():
+    """which fallback bezier_unit_tangent has at a zero of the derivative, by the witness of the sign
+    defect: 'pinned' when it returns the principal root (1-1j)/sqrt(2) (rational_limit + csqrt),
+    'repaired' otherwise (the model with flag true and its agreement lemmas must then hold: a tree
+    that is neither fails them)"""
     from svgpathtools import CubicBezier
     try:
         u = complex(CubicBezier(0j, 0j, -1 + 1j, -2 + 0j).unit_tangent(0.0))
     except Exception:
-        return False
-    return abs(u - complex(-1, 1) / math.sqrt(2)) < 1e-9
+        return 'repaired'
+    return 'pinned' if abs(u - complex(1, -1) / math.sqrt(2)) < 1e-9 else 'repaired'
+
+
+# agreement lemmas of GenAgree/Tangent.v that are stated against the repaired model (flag true)
+REPAIRED_ONLY = ('gen_Quad_unit_tangent', 'gen_Cubic_unit_tangent')
 
 
 def params_of(kind, seg):
@@ -631,8 +637,17 @@ def run(rep, tier, seed, replay=None):
     warnings.simplefilter('ignore')
     rng = common.mkrng(seed, 'C15')
     with common.Scratch() as tmp:
-        info = common.std_static(rep, 'C15', GEN_GROUPS, AGREE, tmp)
-        repaired = detect_repaired()
+        repaired = detect_variant() == 'repaired'
+        # the lemmas about the repaired fallback are skipped for a pinned tree, checked for any other
+        run_agree = common.run_agree
+        if not repaired:
+            common.run_agree = lambda vf, td, skip=(): run_agree(vf, td, skip=set(skip) | set(REPAIRED_ONLY))
+        try:
+            info = common.std_static(rep, 'C15', GEN_GROUPS, AGREE, tmp)
+        finally:
+            common.run_agree = run_agree
+        if not repaired:
+            rep.notes.append('pinned fallback detected: agreement lemmas %s (repaired model) skipped' % (REPAIRED_ONLY,))
         rep.cov['variant'] = ('repaired fallback (direction of the first non-vanishing derivative): model flag true'
                               if repaired else 'pinned fallback (rational_limit + principal sqrt): model flag false')
         n_reg, n_sing, n_tiny = (420, 144, 192) if tier == 'quick' else (4200, 1440, 1920)
